@@ -26,6 +26,8 @@ var noEffectPrefixes = []string{
 	"github.com/pkg/errors.Wrap", "github.com/pkg/errors.New", "github.com/pkg/errors.Errorf", "github.com/pkg/errors.Wrapf",
 	"(github.com/0chain/common/core/currency.Coin).", "github.com/0chain/common/core/currency.",
 	"0chain.net/core/viper.Get", "0chain.net/core/config.", "(*0chain.net/core/viper.Viper).Get",
+	"encoding/json.Marshal", "encoding/hex.", "(*encoding/json.", "bytes.Equal", "bytes.Compare", "unicode.", "unicode/utf8.",
+	"(*0chain.net/chaincore/state.Transfer).Encode", "(*0chain.net/chaincore/state.SignedTransfer).Encode",
 }
 
 // results of these are known to be non-nil
@@ -230,11 +232,30 @@ func (vc *VC) call(in ssa.Instruction, cc *ssa.CallCommon, h *Heap) []string {
 	}
 	if cc.IsInvoke() {
 		key := ifaceKey(cc)
-		if ct, ok := vc.CS.Funcs[key]; ok {
+		ct, ok := vc.CS.Funcs[key]
+		if !ok {
+			// the method may be declared by an interface embedded in (or embedding) the static
+			// type: fall back to the unique iface contract for that method name in the package
+			if n, isN := cc.Value.Type().(*types.Named); isN && n.Obj().Pkg() != nil {
+				var found *FuncContract
+				cnt := 0
+				for _, k := range sortedKeys(vc.CS.Funcs) {
+					c := vc.CS.Funcs[k]
+					if c.Kind == "iface" && strings.HasPrefix(c.Pkg, n.Obj().Pkg().Path()+".") && c.Name == cc.Method.Name() {
+						found = c
+						cnt++
+					}
+				}
+				if cnt == 1 {
+					ct, ok = found, true
+				}
+			}
+		}
+		if ok {
 			args := append([]ssa.Value{cc.Value}, cc.Args...)
 			return vc.useContract(in, ct, cc.Signature(), ifaceParamNames(cc, ct), args, h, resT)
 		}
-		if strings.HasSuffix(name, "(error).Error") {
+		if strings.HasSuffix(name, "(error).Error") || hasAnyPrefix(name, noEffectPrefixes) {
 			return fresh()
 		}
 		vc.root().callees["iface:"+key] = true
@@ -614,8 +635,25 @@ func (vc *VC) useContract(in ssa.Instruction, ct *FuncContract, sig *types.Signa
 }
 
 func (vc *VC) havocLoc(h *Heap, l modLoc, e Expr) {
+	if l.ghost != "" {
+		name, g, _ := vc.ghostHeap(h, l.ghost)
+		_ = name
+		h.M["G_"+l.ghost] = vc.declare(vc.fresh("G_"+sanitize(l.ghost)), g.SMTSort())
+		return
+	}
+	if l.allMaps {
+		for _, k := range sortedKeys(h.M) {
+			if !strings.HasPrefix(k, "G_") {
+				h.M[k] = vc.declare(vc.fresh(k), vc.mapHeapSort(k))
+			}
+		}
+		return
+	}
 	if l.isMap {
 		for _, k := range sortedKeys(h.M) {
+			if strings.HasPrefix(k, "G_") {
+				continue
+			}
 			cur := h.M[k]
 			fr := vc.declare(vc.fresh(k+"_hv"), vc.mapHeapSort(k))
 			h.M[k] = vc.define(k, vc.mapHeapSort(k), sto(cur, l.mapRef, sel(fr, l.mapRef)))
